@@ -1435,6 +1435,12 @@ func (d *Data) storeAndUpdate(ctx *datastore.VersionedCtx, keyStr string, newDat
 	}
 	rcvJSON, _ := json.Marshal(newData)
 	origJSON, _ := json.Marshal(origData)
+	// updateJSON removes null-ed fields from origData, so remember which fields the stored
+	// annotation had: the per-field counts below must be decremented for all of them.
+	origFields := make([]string, 0, len(origData))
+	for field := range origData {
+		origFields = append(origFields, field)
+	}
 	updateJSON(origData, newData, ctx.User, conditionals, replace)
 	newJSON, _ := json.Marshal(newData)
 	dvid.Infof("neuronjson %s put by user %q, conditionals %v, replace %t:\nOrig: %s\n Rcv: %s\n New: %s\n",
@@ -1447,7 +1453,7 @@ func (d *Data) storeAndUpdate(ctx *datastore.VersionedCtx, keyStr string, newDat
 		mdb.data[bodyid] = newData
 
 		// cache updated field and field timestamps
-		for field := range origData {
+		for _, field := range origFields {
 			mdb.fields[field]--
 		}
 		for field := range newData {
